@@ -129,6 +129,29 @@ fn ro_case(h: &History, path: &std::path::Path, calls: &mut u64) -> Result<Vec<(
             probes.push(vec![]);
             ro_mutators_on_bucket(&b, mb, &probes, &mut viol, calls);
         }
+        // handles handed out by the iterators (not looked up by name) must be read-only as well
+        let root_handles: Vec<(Vec<u8>, Bucket)> = tx.buckets().map(|(n, b)| (n.name().to_vec(), b)).collect();
+        for (name, b) in &root_handles {
+            if let Some(mb) = model.at(&[name.clone()]) {
+                let mut probes: Vec<Vec<u8>> = mb.entries.keys().take(3).cloned().collect();
+                probes.push(b"zz-absent".to_vec());
+                ro_mutators_on_bucket(b, mb, &probes, &mut viol, calls);
+                let subs: Vec<(Vec<u8>, Bucket)> = b.buckets().map(|(n, sb)| (n.name().to_vec(), sb)).collect();
+                for (sn, sb) in &subs {
+                    if let Some(smb) = model.at(&[name.clone(), sn.clone()]) {
+                        let mut probes: Vec<Vec<u8>> = smb.entries.keys().take(2).cloned().collect();
+                        probes.push(b"zz-absent".to_vec());
+                        ro_mutators_on_bucket(sb, smb, &probes, &mut viol, calls);
+                    }
+                }
+                // and through IntoIterator / cursor().to_buckets()
+                use jammdb::ToBuckets;
+                for (_n, cb) in b.cursor().to_buckets() {
+                    ro_mutators_on_bucket(&cb, mb, &[b"zz-absent".to_vec()], &mut viol, calls);
+                }
+            }
+        }
+        drop(root_handles);
         // reads through the same transaction still see the committed state
         if let Some(d) = exec::verify_tx_against(&tx, &model, true) {
             viol.push((
